@@ -6,6 +6,7 @@ CONSTANTS
   AcqBarrier = TRUE
   NotLeaderPanics = FALSE
   ApplyRefuses = TRUE
+  QueueGroup = TRUE
   MaxReq = 3
   MaxTransfers = 2
   MaxCancels = 1
